@@ -553,8 +553,6 @@ func c01(ctx *Ctx) (*Outcome, error) {
 		c.prog.Meta = c
 		progs = append(progs, c.prog)
 	}
-	ctx.Env.GenerateAll(progs)
-
 	refused := map[string]int{}
 	knownHits := map[string]int{}
 	sigs := map[string]bool{}
@@ -576,7 +574,29 @@ func c01(ctx *Ctx) (*Outcome, error) {
 		viols = append(viols, Viol{Replay: p, Summary: fmt.Sprintf("%s: %s\n args=%v\n schema=%s", kind, trunc(msg, 300), c.args, trunc(string(jsonx.Marshal(c.root.ToJSON())), 700))})
 	}
 	var okProgs []*batch.Program
-	for _, c := range cases {
+	okLimit := ctx.N(300, 1500)
+	const chunk = 1500
+	for ci, c := range cases {
+		if ci%chunk == 0 {
+			// generate and check chunk by chunk; the programs of finished chunks are released (memory)
+			hi := ci + chunk
+			if hi > len(progs) {
+				hi = len(progs)
+			}
+			ctx.Env.GenerateAll(progs[ci:hi])
+			if ci > 0 {
+				for _, old := range cases[ci-chunk : ci] {
+					keep := false
+					for _, k := range okProgs {
+						keep = keep || k == old.prog
+					}
+					if !keep {
+						_ = os.RemoveAll(old.prog.Dir)
+						old.prog.Src, old.prog.Report = nil, nil
+					}
+				}
+			}
+		}
 		p := c.prog
 		if p.Proc.TimedOut {
 			continue
@@ -590,7 +610,9 @@ func c01(ctx *Ctx) (*Outcome, error) {
 		d := c01Diag(p)
 		if d == "" {
 			okCount++
-			okProgs = append(okProgs, p)
+			if len(okProgs) < okLimit {
+				okProgs = append(okProgs, p)
+			}
 			if len(samples) < 5 && checked%173 == 7 {
 				samples = append(samples, map[string]any{"schema": json.RawMessage(jsonx.Marshal(c.root.ToJSON())), "args": c.args, "emitted_bytes": len(p.Src), "verdict": "parse+gofmt-fixpoint+go/types ok"})
 			}
@@ -604,10 +626,7 @@ func c01(ctx *Ctx) (*Outcome, error) {
 	}
 	// cross-validation with the real compiler on a sample of the clean programs
 	built, excluded := 0, 0
-	lim := ctx.N(300, 1500)
-	if len(okProgs) > lim {
-		okProgs = okProgs[:lim]
-	}
+
 	for lo := 0; lo < len(okProgs); lo += 300 {
 		hi := lo + 300
 		if hi > len(okProgs) {
